@@ -1,7 +1,7 @@
 #!/bin/sh
 # try_mutant.sh <patch.diff> <budget-seconds> <prop> [<prop> ...]
 # Applies a seeded change to /repo, runs the named checks against it, and always reverts /repo afterwards.
-patch="$1"; budget="$2"; shift 2
+patch=$(realpath "$1"); budget="$2"; shift 2
 cd /verif
 if ! git -C /repo apply --check "$patch" 2>/dev/null; then echo "PATCH DOES NOT APPLY: $patch"; exit 3; fi
 git -C /repo apply "$patch"
